@@ -1,0 +1,239 @@
+//go:build verif
+
+// Contracts (worker w-c09) for property C09: pattern matching. Comments only.
+// Vocabulary: /verif/specs/97_pattern.spec, 97_pattern.smt2 (sc, shas, sget, evalok/evalv, bindok/bindsc).
+package rel
+
+// ---- Scope (scope.go) ----------------------------------------------------------------------------
+// TRUSTED definitions: the bodies delegate to frozen.Map (opaque); these contracts DEFINE the abstract
+// content (shas/sget) of the results. (Scope).With is also used by C17 (fnresult needs `pure` + this
+// parameter order).
+//@ func (Scope).With(s; name, expr)
+//@   tags C17, C09
+//@   trusted
+//@   pure
+//@   ensures name == "_" ==> sc(result) == sc(s)
+//@   ensures name != "_" ==> forall n: Str :: shas(sc(result), n) == (n == name || shas(sc(s), n))
+//@   ensures name != "_" ==> forall n: Str :: sget(sc(result), n) == (n == name ? expr : sget(sc(s), n))
+
+//@ globalfact EmptyScope sc(EmptyScope) == emptyScp
+
+//@ func (Scope).Get(s; name)
+//@   tags C09
+//@   trusted
+//@   pure
+//@   ensures result.1 == shas(sc(s), name)
+//@   ensures result.1 ==> result.0 == sget(sc(s), name)
+//@   ensures !result.1 ==> result.0 == nil
+
+//@ func (Scope).Update(s; t)
+//@   tags C09
+//@   trusted
+//@   pure
+//@   ensures sc(result) == supd(sc(s), sc(t))
+
+//@ func (Scope).Without(s; name)
+//@   tags C09
+//@   trusted
+//@   pure
+//@   ensures forall n: Str :: shas(sc(result), n) == (shas(sc(s), n) && !(exists j in 0..len(name) :: name[j] == n))
+//@   ensures forall n: Str :: shas(sc(result), n) ==> sget(sc(result), n) == sget(sc(s), n)
+
+// Enumeration protocol (TRUSTED: frozen's map iterator is opaque): every name of the scope is produced
+// before MoveNext returns false; Current returns the binding last produced. Order unconstrained.
+//@ func (Scope).Enumerator(s)
+//@   tags C09
+//@   trusted
+//@   assigns fresh-only
+//@   modifies scenum, scvisited, sccur
+//@   ensures result != nil && fresh(result)
+//@   ensures scenum == sc(s) && forall n: Str :: !scvisited[n]
+
+//@ func (*ScopeEnumerator).MoveNext(e)
+//@   tags C09
+//@   trusted
+//@   assigns fresh-only
+//@   modifies scvisited, sccur, rel.ScopeEnumerator
+//@   ensures result ==> shas(scenum, sccur) && scvisited == store(old(scvisited), sccur, true)
+//@   ensures !result ==> scvisited == old(scvisited) && forall n: Str :: shas(scenum, n) ==> scvisited[n]
+
+//@ func (*ScopeEnumerator).Current(e)
+//@   tags C09
+//@   trusted
+//@   assigns nothing
+//@   ensures result.0 == sccur && result.1 == sget(scenum, sccur)
+
+// MatchedUpdate: merge s and t (t without "_"); names bound in both must agree BY VALUE (C09 "repeated
+// names must agree"); on success the result is s updated with t.
+//@ func (Scope).MatchedUpdate(s; t)
+//@   tags C09, C10
+//@   assigns fresh-only
+//@   modifies scenum, scvisited, sccur
+//@   returns (r, err)
+//@   requires nonnil: forall n: Str :: (shas(sc(s), n) ==> sget(sc(s), n) != nil) && (shas(sc(t), n) ==> sget(sc(t), n) != nil)
+//@   ensures[C09] agree: err == nil ==> forall n: Str :: n != "_" && shas(sc(s), n) && shas(sc(t), n) ==> sameq(sget(sc(s), n), sget(sc(t), n))
+//@   ensures[C09] complete: (forall n: Str :: n != "_" && shas(sc(s), n) && shas(sc(t), n) ==> sameq(sget(sc(s), n), sget(sc(t), n))) ==> err == nil
+//@   ensures[C09] names: err == nil ==> forall n: Str :: shas(sc(r), n) == (shas(sc(s), n) || (n != "_" && shas(sc(t), n)))
+//@   ensures[C09] vals: err == nil ==> forall n: Str :: sget(sc(r), n) == ((n != "_" && shas(sc(t), n)) ? sget(sc(t), n) : sget(sc(s), n))
+//@   ensures[C09] ext: err == nil ==> covered(sc(r), sc(s)) && covered(sc(r), sc(t))
+//@   loop 0 invariant seen: forall n: Str :: scvisited[n] && n != "_" && shas(sc(t), n) ==> sameq(sget(sc(s), n), sget(sc(t), n))
+//@   loop 0 invariant en: scenum == sc(s)
+
+// ---- ArrayPattern (pattern_array.go) ----------------------------------------------------------------
+// NewArray of a hole-free slice is the zero-based array over that very slice (None if it is empty).
+// TRUSTED here (body = NewOffsetArray(0, values...), whose trimming loops are under contract in
+// verif_contracts.go with a denotational postcondition; this structural one is what ArrayPattern needs).
+//@ func NewArray(values)
+//@   tags C10
+//@   trusted
+//@   assigns nothing
+//@   requires notallholes: len(values) == 0 || exists j in 0..len(values) :: values[j] != nil
+//@   ensures result != nil
+//@   ensures len(values) == 0 ==> result is EmptySet
+//@   ensures len(values) > 0 && (forall j in 0..len(values) :: values[j] != nil) ==> result is Array && result.(Array).offset == 0 && result.(Array).count == len(values) && len(result.(Array).values) == len(values) && result.(Array).values.ref == values.ref && result.(Array).values.off == values.off && result.(Array).values.cap == values.cap
+
+// [p0, …, pn-1] read as an expression builds the dense zero-based array of its items (`...rest` splices an
+// array, a `?p:fallback` item is optional and may only be absent at the tail). Bind must succeed only for
+// such arrays and must bind item i from the corresponding component.
+//@ func (ArrayPattern).Bind(p; ctx, local, value)
+//@   tags C09, C10
+//@   assigns fresh-only
+//@   modifies scenum, scvisited, sccur
+//@   returns (rctx, rscope, err)
+//@   requires value != nil
+//@   requires[C02] validSet(value)
+//@   requires wf: forall i in 0..len(p.items) :: p.items[i].pattern != nil
+//@   ensures[C09] isarray: err == nil ==> (value is EmptySet || value is Array)
+//@   ensures[C09] zerobased: err == nil && value is Array ==> arrOf(value).offset == 0
+//@   ensures[C09] dense: err == nil && value is Array ==> denseArr(arrOf(value))
+//@   ensures[C09] restlen: err == nil ==> forall k in 0..len(p.items) :: isRest(p.items[k]) ==> alen(value) >= len(p.items) - 1
+//@   ensures[C09] fbmax: err == nil && value is Array && (exists k in 0..len(p.items) :: !isRest(p.items[k]) && p.items[k].fallback != nil) ==> alen(value) <= len(p.items)
+//@   ensures[C09] emptyrest: value is EmptySet && len(p.items) == 1 && isRest(p.items[0]) && bindok(p.items[0].pattern, ctx, sc(local), value) ==> err == nil
+//@   loop 1 invariant bnd: 0 <= $idx && $idx <= len(p.items)
+//@   loop 1 invariant dom: forall k: Int :: has(extraElements, k) ==> 0 <= k && k < $idx && (isRest(p.items[k]) || p.items[k].fallback != nil) && extraElements[k] == arrOf(value).count - len(p.items)
+//@   loop 1 invariant all: forall k in 0..$idx :: (isRest(p.items[k]) || p.items[k].fallback != nil) ==> has(extraElements, k)
+//@   loop 1 invariant card: 0 <= len(extraElements) && len(extraElements) <= 1 && (len(extraElements) == 0 ==> forall k: Int :: !has(extraElements, k)) && (len(extraElements) == 1 ==> exists k in 0..$idx :: has(extraElements, k) && (isRest(p.items[k]) || p.items[k].fallback != nil))
+//@   loop 1 invariant uniq: forall k1: Int :: forall k2: Int :: has(extraElements, k1) && has(extraElements, k2) ==> k1 == k2
+//@   loop 0 invariant bnd: 0 <= $idx && $idx <= len(p.items)
+//@   loop 0 invariant fbtail: forall i in 0..$idx :: forall k: Int :: has(extraElements, k) && !isRest(p.items[k]) && i >= arrOf(value).count ==> p.items[i].fallback != nil
+//@   loop 0 invariant dom: forall k: Int :: has(extraElements, k) ==> 0 <= k && k < len(p.items) && (isRest(p.items[k]) || p.items[k].fallback != nil) && extraElements[k] == arrOf(value).count - len(p.items)
+//@   loop 0 invariant all: forall k in 0..len(p.items) :: (isRest(p.items[k]) || p.items[k].fallback != nil) ==> has(extraElements, k)
+//@   loop 0 invariant card: 0 <= len(extraElements) && len(extraElements) <= 1 && (len(extraElements) == 0 ==> forall k: Int :: !has(extraElements, k)) && (len(extraElements) == 1 ==> exists k in 0..len(p.items) :: has(extraElements, k) && (isRest(p.items[k]) || p.items[k].fallback != nil))
+//@   loop 0 invariant uniq: forall k1: Int :: forall k2: Int :: has(extraElements, k1) && has(extraElements, k2) ==> k1 == k2
+//@   loop 0 invariant lenok: len(p.items) <= arrOf(value).count + len(extraElements) && (len(extraElements) == 0 ==> len(p.items) >= arrOf(value).count)
+//@   loop 0 invariant nn: forall n: Str :: shas(sc(result), n) ==> sget(sc(result), n) != nil
+//@   loop 0 invariant off1: offset == 0 || offset == arrOf(value).count - len(p.items)
+//@   loop 0 invariant off2: forall k in 0..$idx :: isRest(p.items[k]) ==> offset == arrOf(value).count - len(p.items)
+//@   loop 0 invariant off3: offset != 0 ==> forall k: Int :: has(extraElements, k) ==> isRest(p.items[k]) && k < $idx
+
+
+// PARKED (written, correct as far as checked on the defect-free region, but NOT claimed: the step obligations
+// do not discharge reliably — solver instability, see notes/w-c09.md). Item-level clauses of ArrayPattern.Bind:
+//-   ensures[C09] head0: err == nil && value is Array && (forall k in 0..len(p.items) :: !isRest(p.items[k])) ==> forall i in 0..len(p.items) :: i < alen(value) ==> matched(p.items[i].pattern, sc(local), arrOf(value).values[i], sc(rscope))
+//-   ensures[C09] headk: err == nil && value is Array ==> forall i in 0..len(p.items) :: forall k in 0..len(p.items) :: isRest(p.items[k]) && i < k ==> i < alen(value) && matched(p.items[i].pattern, sc(local), arrOf(value).values[i], sc(rscope))
+//-   ensures[C09] tail: err == nil && value is Array ==> forall i in 0..len(p.items) :: forall k in 0..len(p.items) :: isRest(p.items[k]) && k < i ==> 0 <= i + alen(value) - len(p.items) && matched(p.items[i].pattern, sc(local), arrOf(value).values[i + alen(value) - len(p.items)], sc(rscope))
+//-   ensures[C09] rest: err == nil && value is Array ==> forall k in 0..len(p.items) :: forall v: Val :: isRest(p.items[k]) && restIs(v, arrOf(value), k, alen(value) - len(p.items) + 1) ==> matched(p.items[k].pattern, sc(local), v, sc(rscope))
+//-   ensures[C09] absent: err == nil && (forall k in 0..len(p.items) :: !isRest(p.items[k])) ==> forall i in 0..len(p.items) :: i >= alen(value) ==> p.items[i].fallback != nil && fbmatched(p.items[i].pattern, p.items[i].fallback, sc(local), sc(rscope))
+//-   loop 0 invariant head0: len(extraElements) == 0 ==> forall i in 0..$idx :: i < alen(value) && matched(p.items[i].pattern, sc(local), arrOf(value).values[i], sc(result))
+//-   loop 0 invariant headf: forall i in 0..$idx :: forall k: Int :: has(extraElements, k) && !isRest(p.items[k]) && i < alen(value) ==> matched(p.items[i].pattern, sc(local), arrOf(value).values[i], sc(result))
+//-   loop 0 invariant headk: forall i in 0..$idx :: forall k: Int :: has(extraElements, k) && isRest(p.items[k]) && i < k ==> i < alen(value) && matched(p.items[i].pattern, sc(local), arrOf(value).values[i], sc(result))
+//-   loop 0 invariant tail: forall i in 0..$idx :: forall k: Int :: has(extraElements, k) && isRest(p.items[k]) && k < i ==> 0 <= i + alen(value) - len(p.items) && matched(p.items[i].pattern, sc(local), arrOf(value).values[i + alen(value) - len(p.items)], sc(result))
+//-   loop 0 invariant rest: forall k in 0..$idx :: forall v: Val :: isRest(p.items[k]) && restIs(v, arrOf(value), k, alen(value) - len(p.items) + 1) ==> matched(p.items[k].pattern, sc(local), v, sc(result))
+//-   loop 0 invariant absent: forall i in 0..$idx :: forall k: Int :: has(extraElements, k) && !isRest(p.items[k]) && i >= alen(value) ==> p.items[i].fallback != nil && fbmatched(p.items[i].pattern, p.items[i].fallback, sc(local), sc(result))
+
+// ---- small patterns ---------------------------------------------------------------------------------
+// A name binds exactly the value (construction: the name evaluates to what it is bound to).
+//@ func (IdentPattern).Bind(p; ctx, scope, value)
+//@   tags C09, C10
+//@   assigns nothing
+//@   returns (rctx, rscope, err)
+//@   ensures[C09] ok: err == nil && rctx == ctx
+//@   ensures[C09] binds: p != "_" ==> forall n: Str :: shas(sc(rscope), n) == (n == p) && (n == p ==> sget(sc(rscope), n) == value)
+//@   ensures[C09] wild: p == "_" ==> sc(rscope) == emptyScp
+
+// `...name` binds the remainder it is given; `...` binds nothing.
+//@ func (ExtraElementPattern).Bind(p; ctx, scope, value)
+//@   tags C09, C10
+//@   assigns nothing
+//@   returns (rctx, rscope, err)
+//@   ensures[C09] ok: err == nil && rctx == ctx
+//@   ensures[C09] binds: p.ident != "" && p.ident != "_" ==> forall n: Str :: shas(sc(rscope), n) == (n == p.ident) && (n == p.ident ==> sget(sc(rscope), n) == value)
+//@   ensures[C09] anon: p.ident == "" || p.ident == "_" ==> sc(rscope) == emptyScp
+
+// (expr) / literal pattern: matches exactly the values Equal to what the expression evaluates to (in the
+// given scope); an identifier expression binds instead. A failing evaluation is an error, never a match.
+//@ func (ExprPattern).Bind(p; ctx, scope, value)
+//@   tags C09, C10
+//@   assigns fresh-only
+//@   modifies evald
+//@   returns (rctx, rscope, err)
+//@   requires p.Expr != nil && value != nil
+//@   ensures[C09] ident: p.Expr is IdentExpr ==> err == nil && (p.Expr.(IdentExpr).ident != "_" ==> shas(sc(rscope), p.Expr.(IdentExpr).ident) && sget(sc(rscope), p.Expr.(IdentExpr).ident) == value)
+//@   ensures[C09] match: !(p.Expr is IdentExpr) ==> ((err == nil) == (evalok(p.Expr, ctx, sc(scope)) && eq(evalv(p.Expr, ctx, sc(scope)), value)))
+//@   ensures[C09] nobind: !(p.Expr is IdentExpr) && err == nil ==> sc(rscope) == emptyScp
+//@   ensures[C09] ctxkept: rctx == ctx
+
+// pattern with fallback: the fallback is used only for an ABSENT component (value == nil), evaluated in the
+// enclosing scope; a present component must match the pattern itself.
+//@ func (FallbackPattern).Bind(p; ctx, local, value)
+//@   tags C09, C10
+//@   assigns fresh-only
+//@   modifies evald
+//@   returns (rctx, rscope, err)
+//@   requires p.pattern != nil
+//@   ensures[C09] present: value != nil ==> (err == nil) == bindok(p.pattern, ctx, sc(local), value)
+//@   ensures[C09] presentsc: value != nil && err == nil ==> sc(rscope) == bindsc(p.pattern, ctx, sc(local), value)
+//@   ensures[C09] nofb: value == nil && p.fallback == nil ==> err != nil
+//@   ensures[C09] absent: value == nil && p.fallback != nil ==> (err == nil) == (evalok(p.fallback, ctx, sc(local)) && bindok(p.pattern, ctx, sc(local), evalv(p.fallback, ctx, sc(local))))
+//-   ensures[C09] fblen: err == nil ==> forall k in 0..len(p.items) :: !isRest(p.items[k]) && p.items[k].fallback != nil ==> alen(value) == len(p.items) || alen(value) == len(p.items) - 1
+//-   ensures[C09] fbtail: err == nil ==> forall k in 0..len(p.items) :: !isRest(p.items[k]) && p.items[k].fallback != nil && alen(value) == len(p.items) - 1 ==> k == len(p.items) - 1
+
+// ---- cond with patterns (expr_cond_pattern_control_var.go, pattern_expr_pair.go) -------------------------
+//@ func (PatternExprPair).Bind(p; ctx, local, value)
+//@   tags C09, C10
+//@   assigns fresh-only
+//@   requires p.pattern != nil && value != nil
+//@   ensures (result.2 == nil) == bindok(p.pattern, ctx, sc(local), value)
+//@   ensures result.2 == nil ==> sc(result.1) == bindsc(p.pattern, ctx, sc(local), value) && result.0 == bindcx(p.pattern, ctx, sc(local), value)
+
+//@ func (PatternExprPair).eval(p; ctx, local)
+//@   tags C09, C10
+//@   assigns fresh-only
+//@   modifies evald
+//@   requires p.expr != nil
+//@   ensures (result.1 == nil) == evalok(p.expr, ctx, sc(local))
+//@   ensures result.1 == nil ==> result.0 == evalv(p.expr, ctx, sc(local)) && result.0 != nil
+
+// cond takes the FIRST matching arm and evaluates its expression in the scope updated with the arm's bindings;
+// no arm: the empty set. A genuine error while matching an arm (before any arm matched) must surface.
+//@ func (CondPatternControlVarExpr).Eval(e; ctx, scope)
+//@   tags C09, C10
+//@   assigns fresh-only
+//@   modifies evald
+//@   returns (v, err)
+//@   requires e.controlVarExpr != nil && forall j in 0..len(e.conditionPairs) :: e.conditionPairs[j].pattern != nil && e.conditionPairs[j].expr != nil
+//@   ensures[C09] ctlfail: !evalok(e.controlVarExpr, ctx, sc(scope)) ==> err != nil
+//@   ensures[C09] first: evalok(e.controlVarExpr, ctx, sc(scope)) ==> forall j in 0..len(e.conditionPairs) :: armok(e, ctx, scope, j) && (forall k in 0..j :: !armok(e, ctx, scope, k)) ==> letbody(e.conditionPairs[j].pattern, e.conditionPairs[j].expr, ctx, sc(scope), evalv(e.controlVarExpr, ctx, sc(scope)), v, err)
+//@   ensures[C09] none: evalok(e.controlVarExpr, ctx, sc(scope)) && (forall j in 0..len(e.conditionPairs) :: !armok(e, ctx, scope, j)) ==> err == nil && v is EmptySet
+//@   ensures[C09] generr: evalok(e.controlVarExpr, ctx, sc(scope)) ==> forall j in 0..len(e.conditionPairs) :: binderr(e.conditionPairs[j].pattern, ctx, sc(scope), evalv(e.controlVarExpr, ctx, sc(scope))) && (forall k in 0..j :: !armok(e, ctx, scope, k)) ==> err != nil
+//@   loop 0 invariant nomatch: forall k in 0..$idx :: !armok(e, old(ctx), scope, k)
+
+// ---- Dict / Set patterns: safety only (C10 obligations under the C09 tag). No frame clause: the helpers they call
+// (Dict/Set/Names methods over frozen) have no contracts, so the state is havocked at those calls; the binding
+// postconditions are NOT claimed (see notes). TuplePattern.Bind is not under contract for the same reason. ------
+//@ func (DictPattern).Bind(p; ctx, local, value)
+//@   tags C09, C10
+//@   requires value != nil
+//@   requires wf: forall i in 0..len(p.entries) :: p.entries[i].pattern.pattern != nil && p.entries[i].at != nil
+//@   loop 0 invariant nn: forall n: Str :: shas(sc(result), n) ==> sget(sc(result), n) != nil
+
+// (SetPattern.Bind: NOT under contract — with the contract-less Set helpers the state is havocked and the implicit
+// safety obligations fail spuriously; its explicit panic is recorded from a probe, see notes.)
+
+//@ func (LiteralExpr).Literal(e)
+//@   tags C10
+//@   pure
+//@   ensures result == e.literal
+// (parked with them: `exactlen` and its helper invariant `noextra` — inv.0.noextra.init does not discharge reliably)
+//-   ensures[C09] exactlen: err == nil && (forall i in 0..len(p.items) :: !isRest(p.items[i]) && p.items[i].fallback == nil) ==> alen(value) == len(p.items)
+//-   loop 0 invariant noextra: (forall i in 0..len(p.items) :: !isRest(p.items[i]) && p.items[i].fallback == nil) ==> len(extraElements) == 0
